@@ -91,4 +91,13 @@ TEXT["C16"] = {
     "note": _TB + "Partial: rayon's work-stealing schedules and real blocking are not in the model (the probe turns the self-deadlock pattern into a deterministic report); client interleavings are sampled on the implementation, the theorem covers all.",
     "technique": "Lean 4 commutation/interleaving proof over per-key store operations + differential runs over concurrency settings and scheduled client threads",
 }
+TEXT["C15"] = {
+    "level": "Machine-checked proof, for payloads of any length and every position, that CRC-32C (bit-serial reflected register, validated against RFC 3720 vectors and byte-for-byte against the crc32c crate) "
+             "and Fletcher-32 (HDF5 variant incl. odd lengths and multi-block payloads) detect every single-byte alteration of payload or checksum; that with validation off decoding strips 4 bytes and nothing "
+             "else; that a validated decode succeeding on ANY bytes returns the stored prefix; that a shard shorter than its index or with a live index entry outside the value (incl. offset+size >= 2^64) is an "
+             "error and that whenever a shard decode succeeds every chunk is the in-bounds slice its entry names; a crc-protected index detects every single-byte alteration. On the real code every byte position, "
+             "truncation length, extension and adversarial index entry is applied to stored values and 8 read routes are run in a child process: never a panic, errors where the theorems make detection certain.",
+    "note": _TB + "Partial: absence of panics/aborts inside external codecs on arbitrary bytes is explored (fuzzed), not proved (one open finding: pcodec allocation abort); a checksum placed before a compressor gives no single-byte guarantee for the stored bytes (open finding for fletcher32).",
+    "technique": "Lean 4 proofs of checksum error detection and shard bounds + exhaustive single-byte/truncation corruption of stored values under catch_unwind",
+}
 NOT_YET = {}
